@@ -22,7 +22,7 @@ BEADS_FAULTS = {'file_not_found': 'not found', 'too_few_events': 'lower than 400
 FAULT_OF_MESSAGE = [('not found', 'fileNotFound'), ('lower than 400', 'tooFewEvents'), ('gate fraction', 'gateFraction'), ('not recognized', 'unitsNotRecognized'),
                     ('not available', 'mefNotAvailable'), ('no standard curve', 'noCurveForChannel'), ('Instruments for', 'otherInstrument'),
                     ('Amplification type', 'amplificationType'), ('Detector voltage', 'detectorVoltage')]
-FILES = {'s0.fcs': 600, 's1.fcs': 600, 'nope.fcs': None, 'small.fcs': 120, 'volt.fcs': 600, 'volt0.fcs': 600, 'lin.fcs': 600, 'n380.fcs': 380, 'n399.fcs': 399, 'n400.fcs': 400, 'linf.fcs': 600, 't0.fcs': 600, 't1.fcs': 600, 'decoy.fcs': None}
+FILES = {'sperm.fcs': 600, 'sv500.fcs': 600, 's0.fcs': 600, 's1.fcs': 600, 'nope.fcs': None, 'small.fcs': 120, 'volt.fcs': 600, 'volt0.fcs': 600, 'lin.fcs': 600, 'n380.fcs': 380, 'n399.fcs': 399, 'n400.fcs': 400, 'linf.fcs': 600, 't0.fcs': 600, 't1.fcs': 600, 'decoy.fcs': None}
 UNIT_CELLS = [None, None, 'MEF', 'mef', 'Mef', 'a.u.', 'AU', 'RFI', 'rfi', 'Channel', 'furlongs', 'MEFL', '', 'a.u', '.au', 'u', 'rf', 'me', 'hannel', ' ']
 
 
@@ -40,10 +40,11 @@ def row_facts(spec, beads_table=True):
         u = spec['units'].get(c)
         if u is None:
             continue
-        chans.append({'units': u, 'fxn': spec['beads'] in ('B1', 'B1b', 'BI2', 'BNOV'), 'same_inst': {'BI2': 'FC002'}.get(spec['beads'], 'FC001') == spec.get('iid', 'FC001'),
-                      'has_mef': spec['beads'] in ('B1', 'B1b', 'BNOV') and c in ('FL1', 'FL2'), 'amp': spec['file'] not in ('lin.fcs', 'linf.fcs'),
+        chans.append({'units': u, 'fxn': spec['beads'] in ('B1', 'B1b', 'BI2', 'BNOV', 'BV'), 'same_inst': {'BI2': 'FC002'}.get(spec['beads'], 'FC001') == spec.get('iid', 'FC001'),
+                      'has_mef': (spec['beads'] in ('B1', 'B1b', 'BNOV') and c in ('FL1', 'FL2')) or (spec['beads'] == 'BV' and c == 'FL3'), 'amp': spec['file'] not in ('lin.fcs', 'linf.fcs'),
                       # the sample records a voltage; the beads record another one, or none at all
-                      'volt': spec['file'] not in ('volt.fcs', 'volt0.fcs') and spec['beads'] != 'BNOV'})
+                      # (beads row BV: acquired at 500 V in FL1 and 700 V in FL3, calibrated in FL3 only; every sample here is acquired at one voltage in all channels)
+                      'volt': spec['file'] not in ('volt.fcs', 'volt0.fcs') and spec['beads'] not in ('BNOV', 'BV')})
     n = FILES[spec['file']]
     return {'file_found': n is not None, 'n_events': n or 0, 'beads_table': beads_table, 'gate_ok': spec['gate'] == 'ok', 'channels': chans}
 
@@ -71,6 +72,9 @@ class Setup:
         ex.write_fcs('volt.fcs', 'FC001', n=600, voltage=620, seed=seed + 21)
         ex.write_fcs('volt0.fcs', 'FC001', n=600, voltage=0, seed=seed + 25)        # a recorded voltage of zero is a voltage, and differs from the beads'
         ex.write_fcs('lin.fcs', 'FC001', n=600, voltage=450, log_fl=False, seed=seed + 22)
+        ex.write_fcs('sperm.fcs', 'FC001', n=600, voltage=450, seed=seed + 32, col_perm=[0, 1, 4, 3, 2, 5])      # FL3 and FL1 stored in each other's columns
+        ex.write_fcs('beads_v.fcs', 'FC001', kind='beads', n=1400, voltage=450, voltages={'FL1': 500, 'FL3': 700}, seed=seed + 1)
+        ex.write_fcs('sv500.fcs', 'FC001', n=600, voltage=500, seed=seed + 31)
         ex.write_fcs('beads_nov.fcs', 'FC001', kind='beads', n=1400, voltage=None, seed=seed + 1)      # a beads file that does not record detector voltages
         import os as _os
         _os.makedirs(_os.path.join(ex.dir, 'subdir'), exist_ok=True)
@@ -82,7 +86,9 @@ class Setup:
                 excelgen.beads_row('BNOMEF', 'FC001', 'beads1.fcs', channels=()),
                 excelgen.beads_row('BI2', 'FC002', 'beads2.fcs', channels=('GFP-A',), mef={'GFP-A': '200, 700, 2500, 9000, 32000'}),
                 excelgen.beads_row('BFAIL', 'FC001', 'missing_beads.fcs', channels=('FL1',)),
-                excelgen.beads_row('BNOV', 'FC001', 'beads_nov.fcs', channels=('FL1', 'FL2'), clustering=('FL1',))]
+                excelgen.beads_row('BNOV', 'FC001', 'beads_nov.fcs', channels=('FL1', 'FL2'), clustering=('FL1',)),
+                # calibrated in FL3 only (its FL1 and FL2 cells stay empty), detectors at different voltages
+                excelgen.beads_row('BV', 'FC001', 'beads_v.fcs', channels=('FL3',), clustering=('FL3',))]
         self.beads_table = excelgen.table(rows)
         np.random.seed(3)
         with warnings.catch_warnings():
@@ -216,6 +222,12 @@ class Prop(common.PropertyCheck):
         yield {'k': 'combo', 'no_table': True, 'rows': [dict(first, beads='BI2'), first, dict(first, units={'FL1': 'RFI', 'FL2': None, 'FL3': 'MEF'}, beads='B1b')]}
         plain = {'file': 's1.fcs', 'units': {'FL1': 'RFI', 'FL2': 'a.u.', 'FL3': 'Channel'}, 'gate': 'ok'}
         yield {'k': 'combo', 'rows': [dict(plain, beads=b) for b in ('BFAIL', 'BNOMEF', 'BI2', 'B1')] + [dict(plain, file='n380.fcs', beads='B1'), dict(plain, file='n399.fcs', beads='B1'), dict(plain, file='n400.fcs', beads='B1')]}
+        # samples of one instrument stored with different column orders, calibrated with the same beads one after the other
+        yield {'k': 'combo', 'rows': [first, dict(first, file='sperm.fcs'), dict(first, file='s1.fcs', units={'FL1': 'MEF', 'FL2': 'MEF', 'FL3': None}),
+                                      dict(first, file='sperm.fcs', units={'FL1': 'MEF', 'FL2': 'mef', 'FL3': 'RFI'}), first]}
+        # beads calibrated in a later channel only, acquired at other voltages per detector: the voltage of THAT channel is compared
+        yield {'k': 'combo', 'rows': [first, dict(first, file='sv500.fcs', beads='BV', units={'FL1': None, 'FL2': None, 'FL3': 'MEF'}), first,
+                                      dict(first, file='sv500.fcs', beads='BV', units={'FL1': 'RFI', 'FL2': None, 'FL3': 'mef'})]}
         # units cells padded with blanks ('MEF ', ' mef') on rows whose beads were acquired with other settings / on another instrument: the documented faults
         yield {'k': 'combo', 'rows': [first, dict(first, file='volt.fcs', units={'FL1': 'MEF ', 'FL2': None, 'FL3': None}), dict(first, beads='BI2', units={'FL1': ' mef', 'FL2': None, 'FL3': None}),
                                       dict(first, file='lin.fcs', units={'FL1': ' MEF ', 'FL2': 'a.u. ', 'FL3': None}), dict(first, beads='BFAIL', units={'FL1': 'Mef  ', 'FL2': None, 'FL3': None}),
